@@ -396,7 +396,7 @@ def mat2Sim3(mat, check=True, rtol=1e-5, atol=1e-5):
     rot = mat[..., :3, :3]
 
     s = torch.pow(torch.det(rot), 1/3).unsqueeze(-1)
-    if torch.allclose(s, torch.zeros_like(s), rtol=rtol, atol=atol):
+    if torch.isclose(s, torch.zeros_like(s), rtol=rtol, atol=atol).any():
         raise ValueError("Rotation matrix not full rank.")
 
     q = mat2SO3(rot/s.unsqueeze(-1), check=check, rtol=rtol, atol=atol).tensor()
@@ -503,7 +503,7 @@ def mat2RxSO3(mat, check=True, rtol=1e-5, atol=1e-5):
     rot = mat[..., :3, :3]
 
     s = torch.pow(torch.det(rot), 1/3).unsqueeze(-1)
-    if torch.allclose(s, torch.zeros_like(s), rtol=rtol, atol=atol):
+    if torch.isclose(s, torch.zeros_like(s), rtol=rtol, atol=atol).any():
         raise ValueError("Rotation matrix not full rank.")
 
     q = mat2SO3(rot/s.unsqueeze(-1), check=check, rtol=rtol, atol=atol).tensor()
